@@ -338,39 +338,62 @@ def integrator_argument_forms(ctx, py, prop):
 _LEAN = {}
 
 
-def lean_induction(ctx, prop, theorems):
-    """The step from per-iteration obligations to the whole-run statement is proved in Lean (lean/Induction.lean, Mathlib only):
-    loop rule, termination from the lexicographic variant, chunking independence of a fold, "exactly once" from the cursor
-    invariant.  Thorough tier: the file is re-checked by `lean` (no `sorry`, standard axioms only); quick tier: recorded as an
-    assumption that names the theorems."""
+def lean_lemmas(ctx, prop, fname, theorems, what, ob):
+    """A mathematical step that connects per-function obligations to the property's wording is proved in Lean (lean/<fname>,
+    Mathlib only).  Thorough tier: the file is re-checked by `lean` (no `sorry`, standard axioms only) and the named theorems
+    must be in it -> obligation <prop>.<ob>; quick tier: recorded as an assumption that names the theorems."""
     import os
     import shutil
     import subprocess
     import time as _time
     here = os.path.dirname(os.path.dirname(os.path.abspath(__file__)))
-    path = os.path.join(here, "lean", "Induction.lean")
-    ctx.assume("whole-run statement from the per-iteration obligations: theorems %s of lean/Induction.lean (re-checked by lean in the thorough tier)" % ", ".join(theorems))
+    path = os.path.join(here, "lean", fname)
+    ctx.assume("%s: theorems %s of lean/%s (re-checked by lean in the thorough tier)" % (what, ", ".join(theorems), fname))
     if ctx.tier == "quick":
         return
     t0 = _time.time()
-    if "res" not in _LEAN:
+    if fname not in _LEAN:
         lean = shutil.which("lean")
         if lean is None or not os.path.exists(path):
-            _LEAN["res"] = (None, "lean or lean/Induction.lean not found")
+            _LEAN[fname] = (None, "lean or lean/%s not found" % fname)
         else:
             try:
                 out = subprocess.run([lean, path], capture_output=True, text=True, timeout=1500)
                 txt = out.stdout + out.stderr
                 src = open(path).read()
                 bad = out.returncode != 0 or "error" in txt.lower() or "sorryAx" in txt or "declaration uses 'sorry'" in txt
-                missing = [t_ for t_ in theorems if ("theorem " + t_.split(".")[-1]) not in src]
-                _LEAN["res"] = (not bad and not missing, (txt.strip()[-600:] or "accepted") + ("" if not missing else " | missing: %s" % missing))
+                _LEAN[fname] = (not bad, (txt.strip()[-600:] or "accepted"), src)
             except Exception as exc:
-                _LEAN["res"] = (None, repr(exc))
-    ok, detail = _LEAN["res"]
-    ctx.ob("%s.induction.mechanised" % prop, "lemma", ok, "lean4+mathlib", _time.time() - t0,
-           "lean/Induction.lean accepted (theorems used here: %s); axioms reported by #print axioms: %s" % (", ".join(theorems), detail[-300:]) if ok
-           else "lean did not accept lean/Induction.lean: %s" % detail)
+                _LEAN[fname] = (None, repr(exc))
+    res = _LEAN[fname]
+    ok, detail = res[0], res[1]
+    if ok is not None:
+        missing = [t_ for t_ in theorems if ("theorem " + t_.split(".")[-1] + " ") not in res[2]]
+        if missing:
+            ok, detail = False, detail + " | missing: %s" % missing
+    ctx.ob("%s.%s" % (prop, ob), "lemma", ok, "lean4+mathlib", _time.time() - t0,
+           "lean/%s accepted (theorems used here: %s); axioms reported by #print axioms: %s" % (fname, ", ".join(theorems), detail[-300:]) if ok
+           else "lean did not accept lean/%s: %s" % (fname, detail))
+
+
+def lean_induction(ctx, prop, theorems):
+    """The step from per-iteration obligations to the whole-run statement is proved in Lean (lean/Induction.lean, Mathlib only):
+    loop rule, termination from the lexicographic variant, chunking independence of a fold, "exactly once" from the cursor
+    invariant."""
+    lean_lemmas(ctx, prop, "Induction.lean", theorems, "whole-run statement from the per-iteration obligations", "induction.mechanised")
+
+
+def lean_psd(ctx, prop, theorems):
+    """Positive (semi)definiteness of the syntactic forms the checks establish on the real code (congruence, sum, PSD + PD,
+    Joseph form, W S^-1 W^T), for all dimensions: lean/Psd.lean."""
+    lean_lemmas(ctx, prop, "Psd.lean", theorems, "PSD lemmas (X P X^T is PSD for PSD P; sums of PSD are PSD; PSD + PD is PD; Joseph form; prior minus posterior)", "psd.mechanised")
+
+
+def lean_convergence(ctx, prop):
+    """Stability half of Lax / Dahlquist: e(k+1) <= (1 + h L) e(k) + h tau, e(0) = 0, N h <= T  =>  e(N) <= tau (exp(L T) - 1) / L
+    (lean/Convergence.lean).  Consistency (tau -> 0 with h, Taylor) and 'C^1 on a compact domain is Lipschitz' stay assumed."""
+    lean_lemmas(ctx, prop, "Convergence.lean", ["Pvx.discrete_gronwall", "Pvx.one_step_convergence"],
+                "a consistent, Lipschitz one-step method converges (global error <= local truncation error x (exp(L T) - 1) / L)", "convergence.mechanised")
 
 
 # ---------------------------------------------------------------------------------------------
